@@ -39,7 +39,7 @@ STUBS = ["virtual-time loop with symbolic clock", "signal.raise_signal(SIGTERM) 
 ASSUMPTIONS = ["blocks created implicitly (_ctrl, automatic Repeat) count as blocks"]
 EXPECT_LABELS = {'all': ['stopped-exactly-once', 'not-started-not-stopped', 'async-stopped-first', 'stop-async-bounded',
                          'no-leftover-tasks', 'no-live-timers', 'stop-data-last', 'frozen']}
-EXPECT_NOTES = {'all': ['term-before-init-done', 'term-while-running', 'fault-before-termination', 'termination-before-fault',
+EXPECT_NOTES = {'all': ['fsm-stopped-before-the-output-block', 'output-block-stopped-first', 'term-before-init-done', 'term-while-running', 'fault-before-termination', 'termination-before-fault',
                         'stop-async-timed-out', 'stop-async-completed', 'start-failed']}
 FLOORS = {'quick': {'paths': 300, 'checks': 3000}, 'thorough': {'paths': 1000, 'checks': 10000}}
 
@@ -414,13 +414,75 @@ def scen_life(env, fault_idx, cause, order_idx, sym_stop=False):
         env.note('fault-before-termination')
 
 
+def scen_cleanup_events(env, cause):
+    """events sent DURING the clean-up (stop_data of an output block -> on_success event) to an FSM that may or may
+    not have been stopped already (the order in which the blocks are stopped is a set order: both are explored).
+    Nothing may outlive the simulation: no timer armed by such an event, no timed event afterwards."""
+    from harness.simdrive import OrderedSet
+    from edzed import simulator
+    circ = fresh_circuit()
+    log = []
+    first = env.pick(['tm2', 'of', 'ie'], 'stopped_first')
+
+    class P(edzed.SBlock):
+        def init_regular(self):
+            self.set_output(0)
+
+        def _event(self, etype, data):
+            log.append((asyncio.get_running_loop().time(), etype, data.get('source'), data.get('value')))
+    P('p')
+    tm2 = edzed.Timer('tm2', t_on=5.0, on_output=edzed.Event('p', 'tm2'))
+    ie = edzed.InputExp('ie', duration=7.0, expired='EXPIRED', on_output=edzed.Event('p', 'ie'))
+    of_calls = []
+    edzed.OutputFunc('of', func=of_calls.append, stop_data={'value': 'OF-STOP'},
+                     on_success=[edzed.Event('tm2', 'start'), edzed.Event('ie', 'put', efilter=edzed.DataEdit.add(value='late'))],
+                     on_error=None)
+    t_term = env.real('t_term', 0.5, 3.0)
+    res = {}
+
+    async def main():
+        loop = asyncio.get_running_loop()
+        task = asyncio.create_task(circ.run_forever(), name='harness: simtask')
+        await circ.wait_init()
+        await asyncio.sleep(t_term)
+        if cause == 'shutdown':
+            await circ.shutdown()
+        else:
+            circ.abort(RuntimeError('abort by harness'))
+            try:
+                await task
+            except Exception:
+                pass
+        res['t_end'] = loop.time()
+        res['n_end'] = len(log)
+        res['timers'] = live_block_timers(loop, circ)
+        res['leftover'] = [t.get_name() for t in asyncio.all_tasks()
+                           if t is not asyncio.current_task() and not t.done() and not t.get_name().startswith('harness')]
+        res['state_end'] = (tm2.state, ie.state)
+        await asyncio.sleep(100.0)
+    OrderedSet.front = [first]
+    simulator.set = OrderedSet
+    try:
+        vloop.run(main())
+    finally:
+        del simulator.set
+        OrderedSet.front = []
+    env.check('stop-data-last', of_calls == ['OF-STOP'], info=lambda: of_calls)
+    env.check('no-live-timers', not res['timers'], info=lambda: (first, res['timers']))
+    env.check('no-leftover-tasks', not res['leftover'], info=lambda: res['leftover'])
+    env.check('nothing-after-end', len(log) == res['n_end'] and (tm2.state, ie.state) == res['state_end'],
+              info=lambda: (first, log[res['n_end']:], res['state_end'], (tm2.state, ie.state)))
+    env.note('fsm-stopped-before-the-output-block' if first in ('tm2', 'ie') else 'output-block-stopped-first')
+
+
 def ends_by_itself(fault):
     return fault in (('pa', 'start'), ('pb', 'start'), ('oa', 'start'), ('pa', 'init_regular'), ('pb', 'init_from_value'),
                      ('fb', 'calc_output'), ('pb', 'event'), ('mt', 'main_task'))
 
 
 def shards(tier):
-    out = []
+    out = [{'name': f'events during clean-up, cause={c}', 'scenario': 'scen_cleanup_events', 'params': {'cause': c}}
+           for c in ('shutdown', 'abort')]
     for fi, fault in enumerate(FAULTS):
         for cause in CAUSES:
             if cause == 'none' and not ends_by_itself(fault):
